@@ -343,3 +343,9 @@ def replay(clause, case, col):
         progs.replay_program(case, col, f)
     else:
         progs.replay_program(case, col, lambda p: check_carriers(p, _text(case), col))
+
+
+def cg_plan(seed):
+    """coverage-guided shards of the thorough tier (harness/cg.py): same strategies and check functions, choices from libFuzzer"""
+    return ([{"kind": "direct", "seed": seed * 1000 + 900 + k, "n": 0, "cg": {"runs": 40000}} for k in range(2)]
+            + [{"kind": "progs", "seed": seed * 1000 + 910 + k, "n": 0, "depth": 2, "cg": {"runs": 600}} for k in range(2)])
